@@ -6,7 +6,7 @@ Only status == "known" suppresses a VIOLATION (turning it into a KNOWN-FINDING l
 documentation and suppress nothing, so a regression of a repaired defect is reported again."""
 import os
 import json
-import fnmatch
+import re
 
 from . import env
 
@@ -20,9 +20,25 @@ def load(pid):
     return [e for e in data.get('findings', []) if e.get('property') == pid and e.get('status') == 'known']
 
 
-def match(entries, sig):
+def _wild(pat, text):
+    if pat == text:
+        return True
+    if '*' in pat:      # '*' is the only wildcard ('[' and '?' occur literally in signatures)
+        rx = '.*'.join(re.escape(part) for part in pat.split('*'))
+        return re.fullmatch(rx, text) is not None
+    return False
+
+
+def match(entries, sig, attribs=()):
+    """An entry matches a failure if its `signature` pattern matches the failure's signature, or - for
+    failures of composite cases (programs) - if its optional `attrib` pattern matches one of the
+    attribution strings of the failure (e.g. 'instr:<instruction>|D1=ok': the failing program contains
+    the known-bad instruction and fails in the same way, from order 2 on only)."""
     for e in entries:
-        pat = e['signature']
-        if pat == sig or (any(c in pat for c in '*?') and fnmatch.fnmatchcase(sig, pat)):
+        if _wild(e['signature'], sig):
             return e
+        if e.get('attrib'):
+            for a in attribs:
+                if _wild(e['attrib'], a):
+                    return e
     return None
